@@ -40,6 +40,8 @@ fn zones() -> Vec<Option<Name>> {
 
 fn host() -> Vec<u8> {
     let mut m = base_msg(&nm("q.test"), T_A, true);
+    m.an.push(name_rec(&nm("q.test"), T_CNAME, 4, &nm("x.q.test")));
+    m.an.push(name_rec(&nm("x.q.test"), T_CNAME, 4, &nm("q.test")));
     m.an.push(a_rec(&nm("old.test"), 5, [1, 2, 3, 4]));
     m.ar.push(opt_variants()[1].clone());
     encode(&m, Strategy::Max)
@@ -72,7 +74,10 @@ pub fn check_name(name: &[u8], zi: usize) -> Result<String, (String, String)> {
         let h = host();
         let mut pp = crate::subj::parse(&h).unwrap();
         let rb = caught(|| -> Result<Option<Vec<u8>>, String> {
-            let mut it = pp.into_iter_answer().ok_or("no answer")?;
+            // the third answer: compressed owners before it make decompression move it
+            let it = pp.into_iter_answer().ok_or("no answer")?;
+            let it = it.next().ok_or("no second answer")?;
+            let mut it = it.next().ok_or("no third answer")?;
             match it.set_raw_name(w) {
                 Ok(()) => Ok(Some(it.name())),
                 Err(_) => Ok(None),
